@@ -311,3 +311,34 @@ impl Encode for QuotedString {
             && forall|i: int| r->Ok_0 <= i < old(raw_value)@.len() ==> final(raw_value)@[i] == old(raw_value)@[i],
 //@end
 }
+
+// ---------------------------------------------------------------- strings.rs: PRECIS OpaqueString profile (RFC 8265), third-party crates
+// precis_core / precis_profiles: trusted, uninterpreted meaning
+pub uninterp spec fn opaque_ok(s: Seq<char>) -> bool;                 // the profile accepts the string
+pub uninterp spec fn opaque_prepared(s: Seq<char>) -> Seq<char>;     // OpaqueString::prepare
+pub uninterp spec fn opaque_enforced(s: Seq<char>) -> Seq<char>;     // OpaqueString::enforce
+pub struct PrecisError;
+impl From<PrecisError> for StunError {
+    #[verifier::external_body]
+    fn from(e: PrecisError) -> StunError { unimplemented!() }
+}
+#[verifier::external_body]
+pub struct CowStr { _p: () }      // std::borrow::Cow<'_, str>
+impl CowStr {
+    pub uninterp spec fn chars(&self) -> Seq<char>;
+    #[verifier::external_body]
+    pub fn as_ref(&self) -> (r: &str) ensures r@ == self.chars() { unimplemented!() }
+    #[verifier::external_body]
+    pub fn len(&self) -> (r: usize) ensures r == vstd::utf8::encode_utf8(self.chars()).len() { unimplemented!() }
+}
+pub mod strings {
+    use super::*;
+    #[verifier::external_body]
+    pub fn opaque_string_prepapre(s: &str) -> (r: Result<CowStr, PrecisError>)
+        ensures r is Ok <==> opaque_ok(s@), r is Ok ==> r->Ok_0.chars() == opaque_prepared(s@),
+    { unimplemented!() }
+    #[verifier::external_body]
+    pub fn opaque_string_enforce(s: &str) -> (r: Result<CowStr, PrecisError>)
+        ensures r is Ok <==> opaque_ok(s@), r is Ok ==> r->Ok_0.chars() == opaque_enforced(s@),
+    { unimplemented!() }
+}
